@@ -235,7 +235,14 @@ def oracleC10 (s : SyncCase) : Option String :=
         if s.finalizeEnabled then
           -- only after every hook of this sync answered finalized
           let answers := (s.hooks.filter (fun h => h.hook != "customize" && h.idx < r.idx))
-          check (!answers.isEmpty && answers.all (fun h => match h.hookBody with | some b => b.getBool "finalized" | none => false))
+          -- with several live parent revisions all must agree; a revision that is drained and deleted in this very sync
+          -- no longer counts (its answer is not part of the aggregated result)
+          let base := (s.mainHook.map s.hookParent).getD .null
+          let prunedParents := (s.calls.filter (fun d => d.isRevision && d.verb == "delete" && d.ok && d.idx < r.idx)).filterMap (fun d =>
+            (s.cache.revisions.find? (fun rev => getName rev == d.name)).bind (fun rev =>
+              (applyPatch base (rev.getD "parentPatch") s.cfg.effectiveFieldPaths).toOption))
+          let counted := answers.filter (fun h => !(prunedParents.any (fun p => (s.hookParent h).eqv p)))
+          check (!answers.isEmpty && counted.all (fun h => match h.hookBody with | some b => b.getBool "finalized" | none => false))
             "the finalizer was removed without an answer finalized:true"
         else none
       else none)) fun _ =>
